@@ -642,3 +642,315 @@ theorem respects_section (s : State) (hinv : respects redactedMosnConfigV s.mosn
     subst this; exact hinv
 
 end MosnVerif.Model.Redact
+
+/-! ### every update keeps the effective config a value of the regenerated graph -/
+namespace MosnVerif.Model.Redact
+open MosnVerif.Model MosnVerif.Model.GoTypes
+
+/-- the argument of an update is a value of the Go type the API takes -/
+def Op.wtArg : Op → Bool
+  | .setMosn cfg => wt G (.named "MOSNConfig") cfg
+  | .setListener l => wt G (.named "Listener") l
+  | .setCluster c => wt G (.named "Cluster") c
+  | .removeCluster _ => true
+  | .setHosts _ hs => wt G (.slice (.named "Host")) hs
+  | .setRouter r => wt G (.named "RouterConfiguration") r
+  | .setExtend _ _ => true
+  | .setCMTLS tls => wt G (.named "TLSConfig") tls
+  | .persist => true
+  | .reset => true
+
+structure SWt (s : State) : Prop where
+  mosn : wt G (.named "MOSNConfig") s.mosn = true
+  lis : wtM G (.named "Listener") s.listeners = true
+  clu : wtM G (.named "Cluster") s.clusters = true
+  rou : wtM G (.named "RouterConfiguration") s.routers = true
+  ext : wtL G (.named "ExtendConfig") s.exts = true
+
+theorem wtF_append (g : Graph) (s : String) : (a b : List (String × Val)) → wtF g s a = true → wtF g s b = true → wtF g s (a ++ b) = true
+  | [], b, _, hb => by simpa using hb
+  | (k, v) :: r, b, ha, hb => by
+    simp only [wtF, Bool.and_eq_true] at ha
+    simp only [List.cons_append, wtF, Bool.and_eq_true]
+    exact ⟨ha.1, wtF_append g s r b ha.2 hb⟩
+
+theorem wtF_filter (g : Graph) (s : String) (p : String × Val → Bool) : (fs : List (String × Val)) → wtF g s fs = true → wtF g s (fs.filter p) = true
+  | [], _ => by simp [wtF]
+  | (k, v) :: r, h => by
+    simp only [wtF, Bool.and_eq_true] at h
+    simp only [List.filter]
+    split
+    · simp only [wtF, Bool.and_eq_true]; exact ⟨h.1, wtF_filter g s p r h.2⟩
+    · exact wtF_filter g s p r h.2
+
+theorem wtF_mapSet (g : Graph) (s k : String) (v : Val) (t : GoTy) (ht : g.fieldTy s k = some t) (hv : wt g t v = true) :
+    (fs : List (String × Val)) → wtF g s fs = true → wtF g s (fs.map (fun kv => if kv.1 == k then (k, v) else kv)) = true
+  | [], _ => by simp [wtF]
+  | (k', c) :: r, h => by
+    simp only [wtF, Bool.and_eq_true] at h
+    simp only [List.map]
+    by_cases e : (k' == k) = true
+    · simp only [e, if_true, wtF, Bool.and_eq_true, ht]
+      exact ⟨hv, wtF_mapSet g s k v t ht hv r h.2⟩
+    · simp only [e, wtF, Bool.and_eq_true]
+      exact ⟨h.1, wtF_mapSet g s k v t ht hv r h.2⟩
+
+theorem wtF_setF (g : Graph) (s k : String) (v : Val) (t : GoTy) (ht : g.fieldTy s k = some t) (hv : wt g t v = true)
+    (fs : List (String × Val)) (h : wtF g s fs = true) : wtF g s (setF fs k v) = true := by
+  unfold setF
+  split
+  · exact wtF_mapSet g s k v t ht hv fs h
+  · exact wtF_append g s fs _ h (by simp [wtF, ht, hv])
+
+theorem wtM_append (g : Graph) (e : GoTy) : (a b : List (String × Val)) → wtM g e a = true → wtM g e b = true → wtM g e (a ++ b) = true
+  | [], b, _, hb => by simpa using hb
+  | (k, v) :: r, b, ha, hb => by
+    simp only [wtM, Bool.and_eq_true] at ha
+    simp only [List.cons_append, wtM, Bool.and_eq_true]
+    exact ⟨ha.1, wtM_append g e r b ha.2 hb⟩
+
+theorem wtM_filter (g : Graph) (e : GoTy) (p : String × Val → Bool) : (kvs : List (String × Val)) → wtM g e kvs = true → wtM g e (kvs.filter p) = true
+  | [], _ => by simp [wtM]
+  | (k, v) :: r, h => by
+    simp only [wtM, Bool.and_eq_true] at h
+    simp only [List.filter]
+    split
+    · simp only [wtM, Bool.and_eq_true]; exact ⟨h.1, wtM_filter g e p r h.2⟩
+    · exact wtM_filter g e p r h.2
+
+theorem wtM_mapSet (g : Graph) (e : GoTy) (k : String) (v : Val) (hv : wt g e v = true) :
+    (kvs : List (String × Val)) → wtM g e kvs = true → wtM g e (kvs.map (fun kv => if kv.1 == k then (k, v) else kv)) = true
+  | [], _ => by simp [wtM]
+  | (k', c) :: r, h => by
+    simp only [wtM, Bool.and_eq_true] at h
+    simp only [List.map]
+    by_cases e' : (k' == k) = true
+    · simp only [e', if_true, wtM, Bool.and_eq_true]
+      exact ⟨hv, wtM_mapSet g e k v hv r h.2⟩
+    · simp only [e', wtM, Bool.and_eq_true]
+      exact ⟨h.1, wtM_mapSet g e k v hv r h.2⟩
+
+theorem wtM_setF (g : Graph) (e : GoTy) (k : String) (v : Val) (hv : wt g e v = true)
+    (kvs : List (String × Val)) (h : wtM g e kvs = true) : wtM g e (setF kvs k v) = true := by
+  unfold setF
+  split
+  · exact wtM_mapSet g e k v hv kvs h
+  · exact wtM_append g e kvs _ h (by simp [wtM, hv])
+
+theorem wtM_getF (g : Graph) (e : GoTy) (k : String) (v : Val) : (kvs : List (String × Val)) → wtM g e kvs = true →
+    getF kvs k = some v → wt g e v = true
+  | [], _, h => by simp [getF] at h
+  | (k', c) :: r, hw, h => by
+    simp only [wtM, Bool.and_eq_true] at hw
+    simp only [getF, List.find?] at h
+    by_cases e' : (k' == k) = true
+    · simp only [e', Option.map_some, Option.some.injEq] at h
+      subst h; exact hw.1
+    · simp only [e'] at h
+      exact wtM_getF g e k v r hw.2 (by simpa [getF] using h)
+
+/-- a well-typed struct value: its name and the typing of its fields -/
+theorem wt_struct_inv {g : Graph} {n : String} {v : Val} (h : wt g (.named n) v = true) :
+    ∃ fs, v = .struct n fs ∧ wtF g n fs = true := by
+  cases v <;> simp [wt] at h
+  rename_i s fs
+  obtain ⟨rfl, h⟩ := h
+  exact ⟨fs, rfl, h⟩
+
+theorem wtF_fieldsOf {g : Graph} {n : String} {v : Val} (h : wt g (.named n) v = true) : wtF g n v.fieldsOf = true := by
+  obtain ⟨fs, rfl, hf⟩ := wt_struct_inv h
+  exact hf
+
+theorem wt_mk {g : Graph} {n : String} {fs : List (String × Val)} (h : wtF g n fs = true) : wt g (.named n) (.struct n fs) = true := by
+  simp [wt, h]
+
+/-- the field types of the regenerated graph that the update operations rely on -/
+theorem graph_fields :
+    G.fieldTy "effectiveConfig" "MosnConfig" = some (.named "MOSNConfig") ∧
+    G.fieldTy "effectiveConfig" "Listener" = some (.map (.named "Listener")) ∧
+    G.fieldTy "effectiveConfig" "Cluster" = some (.map (.named "Cluster")) ∧
+    G.fieldTy "effectiveConfig" "Routers" = some (.map (.named "RouterConfiguration")) ∧
+    G.fieldTy "effectiveConfig" "ExtendConfigs" = some (.slice (.named "ExtendConfig")) ∧
+    G.fieldTy "MOSNConfig" "ClusterManager" = some (.named "ClusterManagerConfig") ∧
+    G.fieldTy "MOSNConfig" "Servers" = some (.slice (.named "ServerConfig")) ∧
+    G.fieldTy "ClusterManagerConfig" "ClusterManagerConfigJson" = some (.named "ClusterManagerConfigJson") ∧
+    G.fieldTy "ClusterManagerConfigJson" "TLSContext" = some (.named "TLSConfig") ∧
+    G.fieldTy "ClusterManagerConfigJson" "ClusterPoolEnable" = some .bool ∧
+    G.fieldTy "Cluster" "Hosts" = some (.slice (.named "Host")) ∧
+    G.fieldTy "RouterConfiguration" "RouterConfigurationConfig" = some (.named "RouterConfigurationConfig") ∧
+    G.fieldTy "ExtendConfig" "Type" = some .str ∧
+    G.fieldTy "ExtendConfig" "Config" = some (.hole "json.RawMessage") := by decide +kernel
+
+theorem toVal_wt (s : State) (h : SWt s) : wt G (.named "effectiveConfig") s.toVal = true := by
+  obtain ⟨f1, f2, f3, f4, f5, _⟩ := graph_fields
+  simp [State.toVal, wt, wtF, f1, f2, f3, f4, f5, h.mosn, h.lis, h.clu, h.rou, h.ext]
+
+theorem wt_optField (g : Graph) (s k : String) (fs : List (String × Val)) (hfs : wtF g s fs = true) :
+    wtF g s (optField fs k) = true := by
+  unfold optField
+  cases hg : getF fs k with
+  | none => simp [wtF]
+  | some v =>
+    obtain ⟨t', ht', hv⟩ := wtF_getF g s k v fs hfs hg
+    simp [wtF, ht', hv]
+
+theorem wt_cmOnlyTLS (c : Val) (h : wt G (.named "ClusterManagerConfig") c = true) :
+    wt G (.named "ClusterManagerConfig") (cmOnlyTLS c) = true := by
+  obtain ⟨_, _, _, _, _, _, _, f8, _⟩ := graph_fields
+  have hfs := wtF_fieldsOf h
+  have hcj : wtF G "ClusterManagerConfigJson" ((getF c.fieldsOf "ClusterManagerConfigJson").getD .leaf).fieldsOf = true := by
+    cases hg : getF c.fieldsOf "ClusterManagerConfigJson" with
+    | none => simp [Val.fieldsOf, wtF]
+    | some v =>
+      obtain ⟨t, ht, hv⟩ := wtF_getF G _ _ v _ hfs hg
+      rw [f8] at ht; cases ht
+      exact wtF_fieldsOf hv
+  unfold cmOnlyTLS
+  apply wt_mk
+  simp only [wtF, f8, Bool.and_true]
+  apply wt_mk
+  exact wtF_append G _ _ _ (wt_optField G _ _ _ hcj) (wt_optField G _ _ _ hcj)
+
+theorem wt_firstServer (c : Val) (h : wt G (.slice (.named "ServerConfig")) c = true) :
+    wt G (.slice (.named "ServerConfig")) (firstServer c) = true := by
+  unfold firstServer
+  split
+  · rename_i s fs r
+    simp only [wt, wtL, Bool.and_eq_true, beq_iff_eq] at h
+    obtain ⟨⟨he, hf⟩, _⟩ := h
+    subst he
+    simp only [wt, wtL, Bool.and_true, BEq.rfl, Bool.true_and]
+    exact wtF_filter G _ _ _ (wtF_filter G _ _ _ hf)
+  · simp [wt, wtL, wtF]
+
+theorem wtF_setMosnFields : (fs : List (String × Val)) → wtF G "MOSNConfig" fs = true → wtF G "MOSNConfig" (setMosnFields fs) = true
+  | [], _ => by simp [setMosnFields, wtF]
+  | (k, c) :: r, h => by
+    obtain ⟨_, _, _, _, _, f6, f7, _⟩ := graph_fields
+    simp only [wtF, Bool.and_eq_true] at h
+    have ih := wtF_setMosnFields r h.2
+    simp only [setMosnFields]
+    split
+    · exact ih
+    · split
+      · rename_i hk
+        have : k = "ClusterManager" := by simpa using hk
+        subst this
+        simp only [wtF, Bool.and_eq_true, f6]
+        refine ⟨?_, ih⟩
+        have h1 := h.1
+        simp only [f6] at h1
+        exact wt_cmOnlyTLS c h1
+      · split
+        · rename_i hk
+          have : k = "Servers" := by simpa using hk
+          subst this
+          simp only [wtF, Bool.and_eq_true, f7]
+          refine ⟨?_, ih⟩
+          have h1 := h.1
+          simp only [f7] at h1
+          exact wt_firstServer c h1
+        · simp only [wtF, Bool.and_eq_true]
+          exact ⟨h.1, ih⟩
+
+theorem wt_setMosn (cfg : Val) (h : wt G (.named "MOSNConfig") cfg = true) : wt G (.named "MOSNConfig") (setMosn cfg) = true := by
+  unfold setMosn
+  exact wt_mk (wtF_setMosnFields _ (wtF_fieldsOf h))
+
+theorem wt_setCMTLS (m tls : Val) (hm : wt G (.named "MOSNConfig") m = true) (ht : wt G (.named "TLSConfig") tls = true) :
+    wt G (.named "MOSNConfig") (setCMTLS m tls) = true := by
+  obtain ⟨_, _, _, _, _, f6, _, f8, f9, _⟩ := graph_fields
+  have hfs := wtF_fieldsOf hm
+  have hcm : wt G (.named "ClusterManagerConfig") ((getF m.fieldsOf "ClusterManager").getD (.struct "ClusterManagerConfig" [])) = true := by
+    cases hg : getF m.fieldsOf "ClusterManager" with
+    | none => simp [wt, wtF]
+    | some v =>
+      obtain ⟨t, ht', hv⟩ := wtF_getF G _ _ v _ hfs hg
+      rw [f6] at ht'; cases ht'; exact hv
+  have hcmf := wtF_fieldsOf hcm
+  have hcj : wt G (.named "ClusterManagerConfigJson") ((getF ((getF m.fieldsOf "ClusterManager").getD (.struct "ClusterManagerConfig" [])).fieldsOf
+      "ClusterManagerConfigJson").getD (.struct "ClusterManagerConfigJson" [])) = true := by
+    cases hg : getF ((getF m.fieldsOf "ClusterManager").getD (.struct "ClusterManagerConfig" [])).fieldsOf "ClusterManagerConfigJson" with
+    | none => simp [wt, wtF]
+    | some v =>
+      obtain ⟨t, ht', hv⟩ := wtF_getF G _ _ v _ hcmf hg
+      rw [f8] at ht'; cases ht'; exact hv
+  have hcjf := wtF_fieldsOf hcj
+  unfold setCMTLS
+  apply wt_mk
+  apply wtF_setF G _ _ _ _ f6 _ _ hfs
+  apply wt_mk
+  apply wtF_setF G _ _ _ _ f8 _ _ hcmf
+  apply wt_mk
+  exact wtF_setF G _ _ _ _ f9 ht _ hcjf
+
+theorem wtL_setExtendL (typ : String) (cfg : Json) : (es : List Val) → wtL G (.named "ExtendConfig") es = true →
+    wtL G (.named "ExtendConfig") (setExtendL typ cfg es) = true
+  | [], _ => by
+    obtain ⟨_, _, _, _, _, _, _, _, _, _, _, _, f13, f14⟩ := graph_fields
+    simp [setExtendL, wtL, wt, wtF, f13, f14]
+  | e :: r, h => by
+    obtain ⟨_, _, _, _, _, _, _, _, _, _, _, _, f13, f14⟩ := graph_fields
+    simp only [wtL, Bool.and_eq_true] at h
+    simp only [setExtendL]
+    split
+    · simp only [wtL, Bool.and_eq_true]
+      refine ⟨?_, h.2⟩
+      apply wt_mk
+      exact wtF_setF G _ _ _ _ f14 (by simp [wt]) _ (wtF_fieldsOf h.1)
+    · simp only [wtL, Bool.and_eq_true]
+      exact ⟨h.1, wtL_setExtendL typ cfg r h.2⟩
+
+theorem wt_clearRouterPath (r : Val) (h : wt G (.named "RouterConfiguration") r = true) :
+    wt G (.named "RouterConfiguration") (clearRouterPath r) = true := by
+  obtain ⟨_, _, _, _, _, _, _, _, _, _, _, f12, _⟩ := graph_fields
+  obtain ⟨fs, rfl, hf⟩ := wt_struct_inv h
+  simp only [clearRouterPath]
+  split
+  · rename_i s2 fs2 hg
+    obtain ⟨t, ht, hv⟩ := wtF_getF G _ _ _ _ hf hg
+    rw [f12] at ht; cases ht
+    obtain ⟨fs2', he, hf2⟩ := wt_struct_inv hv
+    cases he
+    apply wt_mk
+    apply wtF_setF G _ _ _ _ f12 _ _ hf
+    apply wt_mk
+    exact wtF_filter G _ _ _ hf2
+  · exact wt_mk hf
+
+theorem SWt_step (s : State) (op : Op) (hs : SWt s) (ho : op.wtArg = true) : SWt (step s op) := by
+  obtain ⟨_, _, _, _, _, _, _, _, _, _, f11, _⟩ := graph_fields
+  cases op with
+  | setMosn cfg => exact { hs with mosn := wt_setMosn cfg ho }
+  | setListener l => exact { hs with lis := wtM_setF G _ _ _ ho _ hs.lis }
+  | setCluster c => exact { hs with clu := wtM_setF G _ _ _ ho _ hs.clu }
+  | removeCluster n => exact { hs with clu := wtM_filter G _ _ _ hs.clu }
+  | setHosts n hosts =>
+    simp only [step]
+    split
+    · rename_i t fs hg
+      have hv := wtM_getF G _ n _ _ hs.clu hg
+      obtain ⟨fs', he, hf⟩ := wt_struct_inv hv
+      cases he
+      refine { hs with clu := wtM_setF G _ _ _ ?_ _ hs.clu }
+      apply wt_mk
+      exact wtF_setF G _ _ _ _ f11 ho _ hf
+    · exact hs
+  | setRouter r => exact { hs with rou := wtM_setF G _ _ _ (wt_clearRouterPath r ho) _ hs.rou }
+  | setExtend typ cfg => exact { hs with ext := wtL_setExtendL typ cfg _ hs.ext }
+  | setCMTLS tls => exact { hs with mosn := wt_setCMTLS _ tls hs.mosn ho }
+  | persist => exact hs
+  | reset => exact ⟨by simp [step, wt, wtF], by simp [step, wtM], by simp [step, wtM], by simp [step, wtM], by simp [step, wtL]⟩
+
+theorem SWt_foldl (ops : List Op) : (s : State) → SWt s → (∀ op ∈ ops, op.wtArg = true) → SWt (ops.foldl step s) := by
+  induction ops with
+  | nil => intro s h _; exact h
+  | cons op r ih =>
+    intro s h ho
+    exact ih (step s op) (SWt_step s op h (ho op (by simp))) (fun o hm => ho o (by simp [hm]))
+
+/-- after any history whose arguments are values of the API's Go types, the effective config is a value of the graph -/
+theorem run_wt (ops : List Op) (ho : ∀ op ∈ ops, op.wtArg = true) : wt G (.named "effectiveConfig") (run ops).toVal = true :=
+  toVal_wt _ (SWt_foldl ops {} ⟨by simp [wt, wtF], by simp [wtM], by simp [wtM], by simp [wtM], by simp [wtL]⟩ ho)
+
+end MosnVerif.Model.Redact
